@@ -11,9 +11,9 @@ PID = 'C19'
 def covered_by_finer(pf, lv, cell, L):
     """is the level-lv cell covered by a box of a finer level <= L ?"""
     for j in range(lv + 1, L + 1):
-        f = 2 ** (j - lv)
+        f = pf.scale(j) // pf.scale(lv)
         for lo, hi in pf.levels[j].boxes:
-            if all(l <= c * f <= h for l, c, h in zip(lo, cell, hi)):
+            if all(l <= c * f + f - 1 and c * f <= h for l, c, h in zip(lo, cell, hi)):      # any overlap
                 return True
     return False
 
@@ -22,7 +22,7 @@ def pick_point(rng, pf, L):
     """-> (kind, P in half-cell units of level L, level, box, cell or None)"""
     kind = rng.choice(['interior', 'interior', 'interior', 'interior', 'any_centre', 'face', 'outside', 'corner_lattice'])
     lv = rng.randint(0, L)
-    f = 2 ** (L - lv)
+    f = pf.scale(L) // pf.scale(lv)
     lev = pf.levels[lv]
     b = rng.randrange(len(lev.boxes))
     lo, hi = lev.boxes[b]
@@ -39,7 +39,7 @@ def pick_point(rng, pf, L):
             for _ in range(12):
                 cell = tuple(rng.randint(l + 1, h - 1) for l, h in zip(l2, h2))
                 if not covered_by_finer(pf, lvv, cell, L):
-                    ff = 2 ** (L - lvv)
+                    ff = pf.scale(L) // pf.scale(lvv)
                     return kind, [(2 * c + 1) * ff for c in cell], lvv, bb, cell
         kind = 'any_centre'
     if kind == 'any_centre':
@@ -107,6 +107,13 @@ def run_case(seed):
         if kwname not in pf.fields:
             pf.fields[ra.randrange(len(pf.fields))] = kwname
     count(f"a field named like a tool keyword={kwname}")
+    rq = random.Random(seed * 6131 + 7)
+    if pf.nlevels >= 2 and rq.random() < 0.2:
+        # refinement ratios other than 2 / differing between levels (the boxes keep their index ranges; a coarse cell then
+        # counts as covered as soon as a finer box overlaps it).  The model is written for ratio 2: oracle only.
+        pf.ratios = (rq.choice([[4], [2, 4], [4, 2], [4, 4]]) + [2, 4])[:pf.nlevels - 1]
+        pf.meta['ratios'] = list(pf.ratios)
+    count(f"refinement ratios={pf.meta.get('ratios', 'all 2')}")
     keys = c01.reader_keys(pf.fields)
     path = core.scratch_dir(f"c19_{seed}")
     gen.write_plotfile(pf, path)
@@ -163,6 +170,8 @@ def run_case(seed):
                                               what=f"a point outside the domain was answered with {res[1]}"))
                 continue
             # ---- the model
+            if 'ratios' in pf.meta:
+                continue
             st, m = model.call('point', [lv_sx, L, P])
             d = None
             if m[0] == 0:
